@@ -59,6 +59,52 @@ fn main() {
                 None => println!("null"),
             }
         }
+        "judge-child" => {
+            // judge one scenario on a thread with the scenario's stack size (see c02::judge_in_child)
+            let path = std::path::PathBuf::from(args.get(3).cloned().unwrap_or_else(|| usage()));
+            let sc = driver::load_scenario(&path);
+            let kib = sc.knobs.stack_kib.max(64);
+            let h = std::thread::Builder::new()
+                .stack_size(kib << 10)
+                .spawn(move || (def.judge)(&sc))
+                .expect("spawn");
+            match h.join() {
+                Ok(j) => {
+                    for v in &j.violations {
+                        println!(
+                            "CHILD-VIOLATION {}",
+                            serde_json::json!({"property": v.property, "clause": v.clause, "signature": v.signature, "detail": v.detail})
+                        );
+                    }
+                    for n in &j.notes {
+                        println!("CHILD-NOTE {n}");
+                    }
+                }
+                Err(_) => std::process::exit(3),
+            }
+        }
+        "stackprobe" => {
+            // how much nesting does analysis survive on a stack of the given size (KiB)?
+            // usage: simcheck stackprobe C02 <shape> <depth> <stack_kib>
+            let shape = args.get(3).cloned().unwrap_or_default();
+            let depth: usize = args.get(4).and_then(|s| s.parse().ok()).unwrap_or(100);
+            let kib: usize = args.get(5).and_then(|s| s.parse().ok()).unwrap_or(2048);
+            let text = match shape.as_str() {
+                "paren" => format!("proc main() {{\n  var i: int;\n  i := {}1{};\n}}\n", "(".repeat(depth), ")".repeat(depth)),
+                "if" => format!("proc main() {{\n{}{}\n}}\n", "if (1 = 1) {\n".repeat(depth), "}\n".repeat(depth)),
+                "array" => format!("type t = {} int;\nproc main() {{}}\n", "array [2] of ".repeat(depth)),
+                "index" => format!("proc main() {{\n  var a: int;\n  a{} := 1;\n}}\n", "[0]".repeat(depth)),
+                "minus" => format!("proc main() {{\n  var i: int;\n  i := {}1;\n}}\n", "-".repeat(depth)),
+                "openparen" => format!("proc main() {{\n  var i: int;\n  i := {}", "(".repeat(depth)),
+                _ => usage(),
+            };
+            let h = std::thread::Builder::new().stack_size(kib << 10).spawn(move || {
+                let doc = spl_frontend::AnalyzedSource::new(text);
+                use spl_frontend::ErrorContainer;
+                doc.errors().len()
+            }).unwrap();
+            println!("analysed, {} diagnostics", h.join().unwrap());
+        }
         "hashes" => {
             // determinism proof support: one line per work item with the full event-log hashes of
             // every simulated run the judge performed and the verdict
